@@ -737,7 +737,11 @@ func (c *vfC14Ctx) subText(response bool) {
 		sub, pfx = "tresp", "text-parse-response"
 		s = vfC14BuildResponseStream(r, builder)
 	} else {
-		emptyList = r.Intn(100) == 0
+		// Assumption (DESIGN.md, C14): a request is a command name followed by
+		// its arguments, so request lists have at least one element. The empty
+		// list "*0\r\n" has no command to yield and TextParser rejects it at
+		// the next byte; empty *arguments* stay in the generator.
+		_ = r.Intn(100)
 		s = vfC14BuildRequestStream(r, builder, emptyList)
 	}
 	total := len(s.Bytes)
